@@ -172,6 +172,9 @@ impl File {
                             &&& final(w).files == old(w).files.insert(i, final(w).files[i])
                             &&& final(w).files[i].bytes.len() == 0 && final(w).files[i].data == ISet::<int>::empty()
                             &&& final(w).files[i].mode == default_mode()
+                            // a dangling link stays the entry it was (the new file appears where it points); a new name is a new entry
+                            &&& (old(w).paths.contains_key(k) ==> final(w).paths[k].entry == old(w).paths[k].entry && final(w).paths[k].link == old(w).paths[k].link)
+                            &&& (!old(w).paths.contains_key(k) ==> forall|k2: PathKey| #[trigger] old(w).paths.contains_key(k2) ==> old(w).paths[k2].entry != final(w).paths[k].entry)
                         })
                 },
                 Err(_) => final(w).faults == old(w).faults + 1 && final(w).files == old(w).files && final(w).paths == old(w).paths
